@@ -25,6 +25,32 @@ inductive TStep where
   | close | newPath | mkdirs | sameNameRename | compression | retention | createFile
   deriving DecidableEq, Repr
 
+/-- primitives of the three compress functions (`copy_compress`, `add_compress`, `write_compress`), in execution
+order: what the nested `with` statements open, the transfer, and the exits (innermost first) -/
+inductive CPrim where
+  | openSource (binary : Bool)    -- `open(path_in, "rb")`
+  | openArchive                    -- `opener(path_out, **kwargs)`
+  | transfer (basename : Bool)     -- `copyfileobj(f_in, f_out)` / `f.add|write(path_in, os.path.basename(path_in))`
+  | closeArchive
+  | closeSource
+  deriving DecidableEq, Repr
+
+/-- statements of the re-open branch of `FileSink._reopen_if_needed` (watch=True) -/
+inductive RStep where
+  | close | mkdirs | create
+  deriving DecidableEq, Repr
+
+/-- phases of `FileSink.stop` -/
+inductive SStep where
+  | reopen | terminate
+  deriving DecidableEq, Repr
+
+/-- a piece of a `str.format` template: literal text or the n-th (canonically numbered) argument -/
+inductive Piece where
+  | lit (s : Py.Str)
+  | arg (i : Nat)
+  deriving DecidableEq, Repr
+
 /-- phases of `FileSink.write` -/
 inductive WStep where
   | lazyCreate | reopen | rotationTest | terminate | writeMessage
